@@ -210,6 +210,38 @@ def rule_degrees(ctx, rid):
         ctx.undecided(rid, an, c, 'no in-place column update found')
     else:
         ctx.passed(rid, an, c, '%d update states' % n)
+    # every column has the whole iteration budget: the counter compared with max_iters is 0 whenever the
+    # normalisation loop of a column is entered (also in the generic, later, column)
+    import ast as _ast
+    c = 'every column starts its normalisation loop with a fresh iteration counter'
+    seen.clear()
+    nloops = 0
+    badc = None
+    for e in exits:
+        for ls in walk_loops(e.state):
+            if ls.kind != 'while':
+                continue
+            counters = set()
+            for cmp_ in _ast.walk(ls.node.test):
+                if isinstance(cmp_, _ast.Compare):
+                    names = [x.id for x in _ast.walk(cmp_) if isinstance(x, _ast.Name)]
+                    if 'max_iters' in names:
+                        counters |= {x for x in names if x != 'max_iters'}
+            if not counters:
+                continue
+            nloops += 1
+            for cn in counters:
+                v0 = ls.entry_env.get(cn)
+                if v0 != C(0):
+                    badc = 'the counter %s is %s when the loop of a column is entered: the budget of max_iters passes ' \
+                           'is shared between columns, later columns are left un-normalised' \
+                           % (cn, show(v0)[:40] if v0 is not None else 'undefined')
+    if badc:
+        ctx.violation(rid, an, c, badc)
+    elif nloops == 0:
+        ctx.undecided(rid, an, c, 'no loop bounded by max_iters found')
+    else:
+        ctx.passed(rid, an, c, '%d loop entries' % nloops)
 
 
 def rule_methods(ctx, rid):
